@@ -307,7 +307,13 @@ func cmdCheck(args []string) int {
 						}
 					default:
 						hr.unreproduced++
-						fmt.Fprintf(os.Stderr, "[%s] %s: counterexample %s did NOT reproduce natively (%s %s): engine/stub imprecision, not reported\n", id, h.Func, files[j], r.Status, r.Msg)
+						fmt.Fprintf(os.Stderr, "[%s] %s: counterexample %s did NOT reproduce natively (%s %s): engine/stub imprecision, not reported as a violation\n", id, h.Func, files[j], r.Status, r.Msg)
+						// the engine followed a path the real code does not take, and the exploration
+						// stops after a few counterexamples: what was explored is not a verdict
+						engineErr = fmt.Sprintf("%s: a counterexample of the engine did not reproduce natively (engine imprecision; the run is inconclusive)", h.Func)
+						if exit == 0 {
+							exit = 2
+						}
 					}
 				}
 			}
